@@ -21,6 +21,7 @@ package types
 //@   property C07
 //@   trusted
 //@   returns err
+//@   nopanic
 //@ end
 //@ func ValidateResponseOutput(output)
 //@   property C07, C08
